@@ -2072,6 +2072,12 @@ class BaseInterpreter(Generic[TContext, TEvent]):
                     return [resolved]
             if parent.initial and parent.initial in parent.states:
                 return [parent.states[parent.initial]]
+            # 🌐 A parallel parent has no `initial`: its normal entry is every
+            #    region, which is what entering the parent itself does.
+            #    Returning nothing here entered nothing at all and left the
+            #    machine on the bare root.
+            if parent.type == "parallel":
+                return [parent]
             return []
 
         if history_node.history == "deep":
